@@ -126,6 +126,7 @@ func runC14(c c14Case) []c14Obs {
 		rl.GlobalRequestsPerSecond, rl.PerIPRequestsPerSecond, rl.PerIPBurstSize = 100000, 100000, 100000
 		rl.PerConnectionRequestsPerSecond, rl.PerConnectionBurstSize = 1, 2
 		w.srv.NFS.UpdatePolicyOptions(absnfs.PolicyOptions{Squash: "none", EnableRateLimiting: true, RateLimitConfig: &rl})
+		w.realClock = true
 		absnfs.VerifClockOff()
 		if err := w.srv.NFS.Export("/", 0); err != nil {
 			panic(err)
